@@ -1,6 +1,7 @@
 import IV.Model.Proto
 import IV.Model.TextFormats
 import IV.Gen.Matchers
+import IV.Gen.IniChars
 open IV IV.Proto IV.TextFormats
 
 /-! line-protocol driver for C15 (glue, not model) -/
@@ -174,7 +175,7 @@ def handle (fs : List String) : String :=
     | some anv, some t, some qs => iniAnswer (iniView anv t) qs
     | _, _, _ => "bad-op"
   | ["initext", anv, ls, qs] => match decBool anv, decStrList ls, decPairs qs with
-    | some anv, some ls, some qs => (match parseIni ls with
+    | some anv, some ls, some qs => (match parseIni IV.Gen.IniChars.alphabet ls with
       | none => "parse-error"
       | some t => showTree (applyDefaults t) ++ "#" ++ iniAnswer (iniView anv t) qs)
     | _, _, _ => "bad-op"
